@@ -43,6 +43,25 @@ CHECKS = {
          "angle / parallel / orthogonal (functions and Line/Plane methods, both orders) on lattice direction pairs including every "
          "exactly parallel / anti-parallel multiple and exact perpendiculars, for Line/Line, Line/Plane, Plane/Plane and "
          "Vector/Vector; exhaustive over |c|<=2 in the thorough tier.", "4 C11"),
+ "C16": ("reference-model monitor: exact rational rank / re-evaluation of every equation; bounded-exhaustive enumeration",
+         "Every augmented matrix with entries in {-2..2} of shapes 1x3, 1x4, 2x3 (quick) plus 2x4, 3x3 and 3x4 over {-1,0,1} "
+         "(thorough, 4.2M matrices) is passed to solve(); truthiness vs exact rank test, free-parameter count vs n - rank, and "
+         "three calls with different parameter tuples whose results are substituted into every original equation (exactly for "
+         "Fraction entries). Exhaustive within the bound, exploration beyond it.", "5 C16"),
+ "C17": ("round-trip monitor at the constructor / accessor boundary with denoted-set comparator; exhaustive over small general forms",
+         "All 2394 general forms over {-3..3}^4 and all 342 normals/directions with |c|<=3: Plane(a,b,c,d) membership of exact and "
+         "displaced points, general_form / point_normal / parametric round trips (== and denoted-set comparison, independence and "
+         "in-plane test of the parametric vectors), three-point form, negation; Line constructor forms pairwise and parametric().", "5 C17"),
+ "C18": ("shadow-value execution (polynomial-ring elements pushed through the real Vector/Point code, branching on a value raises) + type monitor + numeric consistency monitor",
+         "The component formulas and the three identities are observed as polynomial identities on the single value-independent "
+         "path the real code takes for ring-valued inputs; component types are monitored for int/Fraction/Decimal/float/user "
+         "vectors and all 125 type mixtures in one constructor call; length/normalized/unit/angle consistency over magnitudes "
+         "1e-6..1e6. Dynamic analysis of executions, not a proof.", "5 C18"),
+ "C19": ("configuration-history monitor: outcome vectors of ==/hash/in/intersection under perturbations scaled to the live eps; get_eps/get_sig_figures call-site spies",
+         "Random setter histories with the eps/sig-figures relation checked after each call; at each final eps in 1e-12..1e-5 a "
+         "catalogue object of each of 8 kinds in axis and Pythagorean frames is compared with a copy perturbed by eps/1000 or "
+         "eps/100 (must be ==, hash-equal, mutually containing, coincident) and Points/Vectors 4 eps apart must differ; previous "
+         "setting restored and re-evaluated. The spies list which comparison sites read the live setting.", "5 C19"),
 }
 
 
